@@ -19,10 +19,11 @@ const (
 	KSkipped                    // form controls, noscript, svg, object, embed, applet, unrecognised iframe
 	KPlaceholder                // text of a recognised embed (only inside the placeholder, never in Text)
 	KTitle                      // tokens of <title>
+	KAttr                       // text that exists only in an attribute value (img alt, title=...): never visible text
 )
 
 func (k TokKind) String() string {
-	return [...]string{"text", "caption", "cell", "hidden", "skipped", "placeholder", "title"}[k]
+	return [...]string{"text", "caption", "cell", "hidden", "skipped", "placeholder", "title", "attr"}[k]
 }
 
 type TokInfo struct {
@@ -213,7 +214,12 @@ func (g *ArtGen) noise() string {
 	}
 	g.nnoise++
 	n := g.nnoise
-	return fmt.Sprintf(` id="zi%d" class="zc%d" style="color:#%03d" onclick="zo%d()" onload="zl%d()" data-x="zd%d" zunk="zu%d" data-verif-mark="zm%d"`, n, n, n%1000, n, n, n, n, n)
+	dup := ""
+	if n%5 == 0 {
+		// template-generated pages repeat attributes; the parser keeps every occurrence
+		dup = fmt.Sprintf(` class="zcd%d" id="zid%d" style="margin:%dpx" onclick="zod%d()"`, n, n, n%9, n)
+	}
+	return fmt.Sprintf(` id="zi%d" class="zc%d" style="color:#%03d" onclick="zo%d()" onload="zl%d()" data-x="zd%d" zunk="zu%d" data-verif-mark="zm%d"`, n, n, n%1000, n, n, n, n, n) + dup
 }
 
 // noiseClass is noise for an element that needs a functional class value.
@@ -456,6 +462,15 @@ func (g *ArtGen) lastRefID() string { return g.L.RefSeq[len(g.L.RefSeq)-1] }
 func (g *ArtGen) img(where string) string {
 	switch g.r.Intn(6) {
 	case 0: // lazy image
+		if g.r.Chance(1, 3) {
+			// two lazy attributes of the same kind: data-src has priority, the other must never win
+			a := g.ref("img", "src", where, ".png", mediaForms)
+			id := g.lastRefID()
+			b := g.ref("img", "src", where, ".png", mediaForms)
+			g.L.Refs[g.lastRefID()].Expect = "\x00shadowed"
+			g.L.RefSeq = append(g.L.RefSeq, id)
+			return `<img data-original="` + b + `" data-src="` + a + `"` + g.noise() + `>`
+		}
 		s := `<img data-src="` + g.ref("img", "src", where, ".png", mediaForms) + `"` + g.noise() + `>`
 		return s
 	case 1: // srcset
@@ -468,9 +483,9 @@ func (g *ArtGen) img(where string) string {
 		}
 		// keep the src id as the identifying one
 		g.L.RefSeq = append(g.L.RefSeq, id)
-		return `<img src="` + src + `" srcset="` + strings.Join(cands, ", ") + `"` + g.noise() + ` alt="pic">`
+		return `<img src="` + src + `" srcset="` + strings.Join(cands, ", ") + `"` + g.noise() + ` alt="` + g.tokK(KAttr, "img-alt") + `">`
 	default:
-		return `<img src="` + g.ref("img", "src", where, ".png", mediaForms) + `"` + g.noise() + ` alt="pic" width="640" height="480">`
+		return `<img src="` + g.ref("img", "src", where, ".png", mediaForms) + `"` + g.noise() + ` alt="` + g.tokK(KAttr, "img-alt") + ` ` + g.tokK(KAttr, "img-alt") + `" title="` + g.tokK(KAttr, "img-title") + `" width="640" height="480">`
 	}
 }
 
@@ -486,9 +501,19 @@ func (g *ArtGen) picture(where string) (string, string) {
 		s := "<picture" + g.noise() + `><source srcset="` + c1 + ` 1x, ` + c2 + ` 2x"` + g.noise() + `></picture>`
 		return s, id
 	}
+	if g.P.Hidden && g.r.Chance(1, 2) {
+		// non-rendered children of a <picture> that has an <img> fallback
+		sb.WriteString(`<script>` + g.toksK(1, KHidden, "script") + `</script><span style="display:none">` + g.toksK(1, KHidden, "display-none") + `</span>`)
+	}
 	src := g.ref("img", "src", where, ".png", mediaForms)
 	id := g.lastRefID()
+	if g.P.Hidden && g.r.Chance(1, 3) {
+		sb.WriteString(`<span hidden>` + g.toksK(1, KHidden, "hidden-attr") + `</span>`)
+	}
 	sb.WriteString(`<img src="` + src + `"` + g.noise() + `>`)
+	if g.P.Hidden && g.r.Chance(1, 3) {
+		sb.WriteString(`<style>` + g.toksK(1, KHidden, "style") + `</style>`)
+	}
 	sb.WriteString("</picture>")
 	return sb.String(), id
 }
@@ -614,7 +639,7 @@ func (g *ArtGen) figure() {
 // ---------------------------------------------------------------------------
 // hidden and skipped carriers (C04)
 
-var hiddenBlockKinds = []string{"script", "style", "comment", "hidden-attr", "display-none", "vis-hidden", "vis-collapse", "aria-hidden", "display-none-nested", "figcaption-hidden", "script-styled", "style-styled"}
+var hiddenBlockKinds = []string{"script", "style", "comment", "hidden-attr", "display-none", "vis-hidden", "vis-collapse", "aria-hidden", "display-none-nested", "figcaption-hidden", "script-styled", "style-styled", "figure-hidden-caption"}
 var skippedKinds = []string{"form", "input", "button", "select", "textarea", "noscript", "svg", "object", "embed", "applet", "iframe"}
 
 func (g *ArtGen) hiddenCarrier(kind string) {
@@ -630,13 +655,15 @@ func (g *ArtGen) hiddenCarrier(kind string) {
 	case "hidden-attr":
 		g.w(`<div hidden>` + t(4) + `</div>`)
 	case "display-none":
-		g.w(`<div style="display:none">` + t(4) + `</div>`)
+		g.w(`<div style="` + []string{"display:none", "display:none ", "display: none ;", "color:red;display:none", "display:\nnone;\n color:blue", "DISPLAY:none", "display:NONE", "display:none !important", "display: None!important; color:red"}[g.r.Intn(9)] + `">` + t(4) + `</div>`)
 	case "vis-hidden":
 		g.w(`<div style="visibility:hidden">` + t(3) + `</div>`)
 	case "vis-collapse":
 		g.w(`<div style="color:red; visibility: collapse">` + t(3) + `</div>`)
 	case "aria-hidden":
 		g.w(`<div aria-hidden="true">` + t(3) + `</div>`)
+	case "figure-hidden-caption":
+		g.w(`<figure><img src="/img/hc` + fmt.Sprint(len(g.L.Toks)) + `.png" width="600" height="400"><div hidden><figcaption>` + t(3) + `</figcaption></div></figure>`)
 	case "script-styled":
 		g.w(`<script style="display:block">var y = "` + t(2) + `";</script>`)
 	case "style-styled":
@@ -734,7 +761,7 @@ func (g *ArtGen) dataTable() {
 				ah = ` aria-hidden="false"`
 			}
 			g.w("<td" + ah + g.noise() + ">")
-			switch g.r.Intn(8) {
+			switch g.r.Intn(10) {
 			case 0:
 				g.w(g.toks(1) + ` <a href="` + g.ref("a", "href", "table", ".html", linkForms) + `"` + g.noise() + `>` + g.toks(1) + `</a>`)
 			case 1:
@@ -764,6 +791,18 @@ func (g *ArtGen) dataTable() {
 				}
 			case 5:
 				g.w("<p" + g.noise() + ">" + g.toks(2+g.r.Intn(4)) + "</p>")
+			case 6:
+				// a cell without any visible content
+				switch g.r.Intn(4) {
+				case 0:
+					g.w("<!-- no data -->")
+				case 1:
+					if g.P.Hidden {
+						g.w(`<span hidden>` + g.toksK(1, KHidden, "hidden-attr") + `</span>`)
+					}
+				case 2:
+					g.w(" ")
+				}
 			default:
 				g.w(g.toks(1 + g.r.Intn(3)))
 			}
@@ -861,6 +900,12 @@ func (g *ArtGen) block() {
 	opts := []opt{
 		{10, true, func() { g.paragraph(g.paraLen()) }},
 		{2, p.Inline, g.wrapped},
+		{1, true, func() {
+			// a block with text but no words
+			g.L.Kinds["separator"]++
+			g.lastTxt = -1 // a text block without any token: C08 cannot observe whether it is retained
+			g.w([]string{"<p>* * *</p>", "<p>&mdash; &mdash;</p>", "<div>&bull;</div>", "<p>***</p>", "<hr><p>~</p>"}[g.r.Intn(5)] + "\n")
+		}},
 		{2, p.Headings, func() {
 			g.L.Kinds["heading"]++
 			h := 2 + g.r.Intn(3)
